@@ -50,7 +50,7 @@ def siblings(chk, F):
     n = 0
     for name in ("get", "to_reply", "get_in_unit"):
         # (private helpers the arithmetic has been moved into are put back: one copy per call, with that call's operands)
-        fn = F.find(CORE, SUB + name, inline=True, keep=("Option::<T>", "Iterator", "bool>::then", "conformance_err"))
+        fn = F.find(CORE, SUB + name, inline=True, keep=("Option::<T>", "Result::<T, E>", "Iterator", "bool>::then", "conformance_err"))
         for g in [fn] + F.closures_of(fn):
             ts = role_trees(g)
             if not ts:
@@ -119,7 +119,7 @@ def name_pairs(F, g):
 
 
 def get_gates(chk, F):
-    fn = F.find(CORE, SUB + "get", inline=True, keep=("Option::<T>", "Iterator", "bool>::then", "conformance_err"))
+    fn = F.find(CORE, SUB + "get", inline=True, keep=("Option::<T>", "Result::<T, E>", "Iterator", "bool>::then", "conformance_err"))
     fk = "rink_core::" + SUB + "get"
     # Ok(res) returns in the dimensioned branch
     oks = []
@@ -158,6 +158,17 @@ def get_gates(chk, F):
         chk.decide(bool(dl), "get-gates", fk, "number-only-if-ratio-dimensionless:" + nm, fn.where(bb),
                    "%s is returned only behind dimless(%s)" % (tr, ratio), "a number is returned for `%s` without the amount being conformable with the property (no dimless(%s) gate)" % (nm, ratio))
         nt = [d for d in gs if d[0] == "bool" and d[2] is True and ("." + nm) in ap_str(d[1]) and "PartialEq" in ap_str(d[1])]
+        if not nt:
+            # the property was *found* by `name == output_name || name == input_name` (an iterator `find`), and this side is the one
+            # where the name is not the other name
+            other = "input_name" if nm == "output_name" else "output_name"
+            not_other = [d for d in gs if d[0] == "bool" and d[2] is False and ("." + other) in ap_str(d[1]) and "PartialEq" in ap_str(d[1]) and "::find(" in ap_str(d[1])]
+            both = False
+            for c in F.closures_of(fn):
+                tests = " ".join(ap_str(c.apath(a)) + " " + t_["callee"]["path"] for _, t_ in c.calls() if "callee" in t_ and "PartialEq" in t_["callee"]["path"] for a in t_["args"])
+                both = both or (".output_name" in tests and ".input_name" in tests and "PartialEq" in tests)
+            if not_other and both:
+                nt = not_other
         chk.decide(bool(nt), "get-gates", fk, "name-test:" + nm, fn.where(bb), "this value is returned for `name == prop.%s`" % nm, "%s is not tied to the test name == prop.%s" % (tr, nm))
     if seen != set(want):
         chk.anchor_lost("get-gates", fk, "Substance::get does not return both output*(amount/input) and input*(amount/output): %s" % [t for _, t in oks])
